@@ -102,11 +102,11 @@ type hface struct {
 	peer  *net.UDPAddr
 	ls    *face.NDNLPLinkService
 
-	out [][]byte // frames waiting to be written
-	pk  []int    // pk[i]: the packet out[i] belongs to
-	ci  int      // position in the chunk script
+	out          [][]byte // frames waiting to be written
+	pk           []int    // pk[i]: the packet out[i] belongs to
+	ci           int      // position in the chunk script
 	sleeps, tiny int
-	seq uint64   // next Sequence of the harness's own fragments
+	seq          uint64 // next Sequence of the harness's own fragments
 
 	// receive side, main goroutine only
 	parts  map[uint64]*partial
